@@ -680,6 +680,20 @@ func (k *Kernel) Rule(key RuleKey) []*NLA {
 }
 
 // TakeLog returns and clears the request log.
+// SetFailCmd makes every following request of the command fail with errno (0 clears it).
+func (k *Kernel) SetFailCmd(cmd uint8, errno syscall.Errno) {
+	k.mu.Lock()
+	defer k.mu.Unlock()
+	if errno == 0 {
+		delete(k.FailCmd, cmd)
+		return
+	}
+	if k.FailCmd == nil {
+		k.FailCmd = map[uint8]syscall.Errno{}
+	}
+	k.FailCmd[cmd] = errno
+}
+
 func (k *Kernel) TakeLog() []*KReq {
 	k.mu.Lock()
 	defer k.mu.Unlock()
